@@ -4,9 +4,16 @@ pub mod c03;
 pub mod c04;
 pub mod c04c;
 pub mod c05;
+pub mod c06;
+pub mod c07;
 pub mod c08;
 pub mod c09;
+pub mod c10;
+pub mod c11;
 pub mod c12;
+pub mod c18;
+pub mod c19;
+pub mod c20;
 pub mod dump;
 pub mod md;
 
@@ -27,9 +34,16 @@ pub fn dispatch(id: &str, tier: Tier, seed: u64, replay: Option<&str>) -> i32 {
         "C03" => d!(c03),
         "C04" => d!(c04),
         "C05" => d!(c05),
+        "C06" => d!(c06),
+        "C07" => d!(c07),
         "C08" => d!(c08),
         "C09" => d!(c09),
+        "C10" => d!(c10),
+        "C11" => d!(c11),
         "C12" => d!(c12),
+        "C18" => d!(c18),
+        "C19" => d!(c19),
+        "C20" => d!(c20),
         "dump2" => dump::run(2),
         "dump3" => dump::run(3),
         "tapdebug" => dump::tap_debug(),
